@@ -6,25 +6,23 @@ CONSTANTS
   Hold = FALSE
   Offs = {1, 3}
   MaxPay = 2
-  MaxKeep = 1
-  MaxTick = 2
-  MaxRestart = 1
-  MaxSave = 1
-  MaxAband = 1
+  MaxKeep = 0
+  MaxTick = 0
+  MaxRestart = 0
+  MaxSave = 0
+  MaxAband = 0
   MaxErr = 0
   MaxMsgRecv = 0
   MaxSend = 0
-  MaxOps = 7
-  MinOps = 6
+  MaxOps = 6
+  MinOps = 9
   CodeTicks = 1
   Idem = 1
-  Stale = TRUE
-  Bug = "none"
+  Stale = FALSE
+  Bug = "dup_sends_request"
 CONSTRAINT Bound
 VIEW View
 INVARIANT TermSane
 INVARIANT OneHashPerId
 INVARIANT OnePaymentPerId
-INVARIANT DesignSane
-INVARIANT EmitScripts
 CHECK_DEADLOCK TRUE
